@@ -178,7 +178,7 @@ func (w *World) verifyFunc(fn *ssa.Function, fc *FuncContract, safetyTags []stri
 		if fc == nil {
 			return
 		}
-		env := &specEnv{w: w, pkg: fc.Pkg, vars: vars, st: st, heap: st.heap, old: x.initHeap, result: rs}
+		env := &specEnv{w: w, pkg: fc.Pkg, vars: vars, st: st, heap: st.heap, old: x.oldOf(st), result: rs}
 		for i, ec := range fc.Ensures {
 			g, err := env.evalBool(ec.E)
 			if err != nil {
@@ -214,7 +214,7 @@ func (w *World) verifyFunc(fn *ssa.Function, fc *FuncContract, safetyTags []stri
 				x.reject("contract of %s: establishes %s: untyped value", fc.Key, exprString(ee))
 			}
 			for i, oi := range w.cs.ObjInvs[namedKey(ov.T)] {
-				oenv := &specEnv{w: w, pkg: oi.Pkg, vars: map[string]Val{oi.Var: ov}, st: st, heap: st.heap, old: x.initHeap}
+				oenv := &specEnv{w: w, pkg: oi.Pkg, vars: map[string]Val{oi.Var: ov}, st: st, heap: st.heap, old: x.oldOf(st)}
 				g, err := oenv.evalBool(oi.E)
 				if err != nil {
 					x.reject("objinv of %s: %v", oi.Type, err)
@@ -227,7 +227,7 @@ func (w *World) verifyFunc(fn *ssa.Function, fc *FuncContract, safetyTags []stri
 			}
 		}
 		for i, oi := range objinvs {
-			oenv := &specEnv{w: w, pkg: oi.Pkg, vars: map[string]Val{oi.Var: recvVal}, st: st, heap: st.heap, old: x.initHeap}
+			oenv := &specEnv{w: w, pkg: oi.Pkg, vars: map[string]Val{oi.Var: recvVal}, st: st, heap: st.heap, old: x.oldOf(st)}
 			g, err := oenv.evalBool(oi.E)
 			if err != nil {
 				x.reject("objinv of %s: %v", oi.Type, err)
